@@ -95,7 +95,7 @@ Qed.
 
 (* the usage line: "Usage: ", the path of parent commands, the command's name *)
 Theorem own_help_usage parent c :
-  Infix (lf_to_crlf [85;115;97;103;101;58] ++ [32] ++ hops_bytes parent ++ lf_to_crlf (c_name c)) (hops_bytes (own_help_hops parent c)).
+  Infix (lf_to_crlf H_USAGE ++ [32] ++ hops_bytes parent ++ lf_to_crlf (c_name c)) (hops_bytes (own_help_hops parent c)).
 Proof.
   rewrite own_help_blocks. eapply Infix_trans; [|apply (join_blocks_infix (usage_hops parent c))].
   - unfold usage_hops, title_hops. rewrite !hops_bytes_app. cbn [hops_bytes flat_map hop_bytes]. rewrite !app_nil_r.
@@ -152,10 +152,10 @@ Proof.
   apply join_blocks_infix. unfold own_blocks. rewrite !in_app_iff. cbn [In]. auto 10.
 Qed.
 Theorem own_help_help_option parent c :
-  Infix (element_bytes [45;104;44;32;45;45;104;101;108;112] [80;114;105;110;116;32;104;101;108;112] (max_len (map fst (option_lines (c_args c)))))
+  Infix (element_bytes H_HELP_OPT_NAMES H_HELP_OPT_TEXT (max_len (map fst (option_lines (c_args c)))))
         (hops_bytes (own_help_hops parent c)).
 Proof.
-  rewrite own_help_blocks. eapply Infix_trans; [apply (options_block_in c ([45;104;44;32;45;45;104;101;108;112], [80;114;105;110;116;32;104;101;108;112]))|].
+  rewrite own_help_blocks. eapply Infix_trans; [apply (options_block_in c (H_HELP_OPT_NAMES, H_HELP_OPT_TEXT))|].
   - unfold option_lines. apply in_or_app. right. left. reflexivity.
   - apply join_blocks_infix. unfold own_blocks. rewrite !in_app_iff. cbn [In]. auto 10.
 Qed.
